@@ -44,13 +44,16 @@ def ill_conditioned(terms):
 @st.composite
 def _pair(draw):
     nv = draw(st.integers(1, 4))
-    pool = P[:nv]
+    large = draw(st.integers(0, 9)) == 0       # now and then 6 variables, 6-10 rows, up to 5 variables per row
+    pool = gens.NAMES[:6] if large else P[:nv]
     w = draw(gens.witness_s(pool))
     cls = draw(st.sampled_from(["identical", "sublist", "weakened", "farkas", "scaled", "separated", "unrelated",
                                 "unbounded", "infeasible-left", "infeasible-right", "empty-right", "empty-left",
                                 "equal-bounds", "both-infeasible", "separated-large-constant", "separated-large-constant", "farkas-chain", "small-coefficient"]))
-    L = draw(gens.termlist_s(pool, w, 1, 5))
-    if cls == "identical":
+    L = draw(gens.termlist_s(pool, w, 6, 10, kmax=5)) if large else draw(gens.termlist_s(pool, w, 1, 5))
+    if large:
+        cls += "+large"
+    if cls.startswith("identical"):
         R = list(draw(st.permutations(L)))
     elif cls == "sublist":
         R = [t for t in L if draw(st.booleans())] or L[:1]
